@@ -120,4 +120,181 @@ theorem validEvent_iff (e : Event) : validEvent e = true ↔ EventOk e := by
 
 example : validKind 65535 = true ∧ validKind 65536 = false ∧ validKind (-1) = false := by decide
 
+theorem pubkeyChars_iff (cs : List Char) : validPubkeyChars cs = true ↔ (byteLen cs = 64 ∧ ∀ c ∈ cs, c ∈ hexDigits) := by
+  have := validPubkey_iff (String.ofList cs)
+  simp only [validPubkey, String.toList_ofList, IsLowerHex] at this
+  exact this
+
+/-- the two cuts of `SplitN(s, ":", 3)` -/
+theorem split_at_colon (cs : List Char) :
+    cs = cs.takeWhile (· != ':') ++ cs.dropWhile (· != ':') ∧ ':' ∉ cs.takeWhile (· != ':') ∧
+    (∀ c r, cs.dropWhile (· != ':') = c :: r → c = ':') := by
+  refine ⟨(List.takeWhile_append_dropWhile).symm, ?_, ?_⟩
+  · induction cs with
+    | nil => simp
+    | cons x xs ih =>
+      by_cases hx : x = ':'
+      · simp [List.takeWhile_cons, hx]
+      · simp only [List.takeWhile_cons, bne_iff_ne, ne_eq, hx, not_false_eq_true, decide_true, if_true, List.mem_cons, not_or]
+        exact ⟨fun h => hx h.symm, ih⟩
+  · induction cs with
+    | nil => intro c r h; simp at h
+    | cons x xs ih =>
+      intro c r h
+      by_cases hx : x = ':'
+      · simp [List.dropWhile_cons, hx] at h; exact h.1.symm
+      · simp only [List.dropWhile_cons, bne_iff_ne, ne_eq, hx, not_false_eq_true, decide_true, if_true] at h
+        exact ih c r h
+
+theorem takeWhile_of_decomp (a r : List Char) (ha : ':' ∉ a) :
+    (a ++ ':' :: r).takeWhile (· != ':') = a ∧ (a ++ ':' :: r).dropWhile (· != ':') = ':' :: r := by
+  induction a with
+  | nil => simp
+  | cons x xs ih =>
+    have hx : x ≠ ':' := fun h => ha (by simp [h])
+    have hxs : ':' ∉ xs := fun h => ha (List.mem_cons_of_mem _ h)
+    obtain ⟨i1, i2⟩ := ih hxs
+    simp [List.takeWhile_cons, List.dropWhile_cons, hx, i1, i2]
+
+/-- **C11, addresses**: `validNaddr` holds exactly for `kind:pubkey:d` with a decimal kind in 0..65535, a 64-byte
+    lower-case hex pubkey and ANY `d` (also one containing `:`). -/
+theorem validNaddr_iff (s : String) : validNaddr s = true ↔ NaddrOk s := by
+  unfold validNaddr validNaddrChars NaddrOk
+  obtain ⟨e1, n1, c1⟩ := split_at_colon s.toList
+  constructor
+  · intro h
+    unfold splitColon3 at h
+    cases hd1 : s.toList.dropWhile (· != ':') with
+    | nil => simp [hd1, Gen.naddrArityBad] at h
+    | cons x r1 =>
+      have hx := c1 x r1 hd1
+      subst hx
+      obtain ⟨e2, n2, c2⟩ := split_at_colon r1
+      cases hd2 : r1.dropWhile (· != ':') with
+      | nil => simp [hd1, hd2, Gen.naddrArityBad] at h
+      | cons y r2 =>
+        have hy := c2 y r2 hd2
+        subst hy
+        simp only [hd1, hd2, List.length_cons, List.length_nil, Gen.naddrArityBad, List.getD_cons_zero,
+          List.getD_cons_succ] at h
+        cases hp : parseInt64Chars (s.toList.takeWhile (· != ':')) with
+        | none => simp [hp] at h
+        | some kind =>
+          simp only [hp, Gen.naddrKindBad, Gen.naddrPubkeyBad] at h
+          have hk : validKind kind = true := by
+            cases hv : validKind kind with
+            | true => rfl
+            | false => simp [hv] at h
+          have hpk : validPubkeyChars (r1.takeWhile (· != ':')) = true := by
+            cases hv : validPubkeyChars (r1.takeWhile (· != ':')) with
+            | true => rfl
+            | false => simp [hk, hv] at h
+          obtain ⟨l1, l2⟩ := (pubkeyChars_iff _).1 hpk
+          refine ⟨s.toList.takeWhile (· != ':'), r1.takeWhile (· != ':'), r2, kind, ?_, n1, n2, hp,
+            (validKind_iff kind).1 hk, l1, l2⟩
+          conv => lhs; rw [e1, hd1, e2, hd2]
+          simp
+  · rintro ⟨k, pk, d, kind, hs, hk, hpk, hp, hko, hl, hh⟩
+    have hs' : s.toList = k ++ ':' :: (pk ++ ':' :: d) := by rw [hs]; simp
+    obtain ⟨t1, t2⟩ := takeWhile_of_decomp k (pk ++ ':' :: d) hk
+    obtain ⟨t3, t4⟩ := takeWhile_of_decomp pk d hpk
+    unfold splitColon3
+    rw [hs']
+    simp only [t1, t2, t3, t4, List.length_cons, List.length_nil, Gen.naddrArityBad, List.getD_cons_zero,
+      List.getD_cons_succ, hp, Gen.naddrKindBad, Gen.naddrPubkeyBad, (validKind_iff kind).2 hko,
+      (pubkeyChars_iff pk).2 ⟨hl, hh⟩]
+    simp
+
+/-- **C11, tag conditions**: `#x` entries are judged valid exactly when the name is one ASCII letter and, for
+    `#e` / `#p` / `#a`, every value is an id / pubkey / address. -/
+theorem validTagCond_iff (c : String × List String) : validTagCond c = true ↔ TagCondOk c := by
+  unfold validTagCond TagCondOk isLetterByte
+  simp only [Gen.filterTagNameBad, Gen.filterTagE, Gen.filterTagP, Gen.filterTagA, Gen.filterTagEBad, Gen.filterTagPBad,
+    Gen.filterTagABad]
+  by_cases hn : ((byteLen c.1.toList : Int) != 1 ||
+      !(decide (65 ≤ (((c.1.toUTF8.toList.getD 0 0).toNat : Nat) : Int)) && decide ((((c.1.toUTF8.toList.getD 0 0).toNat : Nat) : Int) ≤ 90) ||
+        decide (97 ≤ (((c.1.toUTF8.toList.getD 0 0).toNat : Nat) : Int)) && decide ((((c.1.toUTF8.toList.getD 0 0).toNat : Nat) : Int) ≤ 122))) = true
+  · simp only [hn, if_true, Bool.false_eq_true, false_iff]
+    rintro ⟨⟨h1, h2⟩, _⟩
+    simp only [Bool.or_eq_true, bne_iff_ne, ne_eq, Bool.not_eq_true', Bool.or_eq_false_iff, Bool.and_eq_false_iff,
+      decide_eq_false_iff_not] at hn
+    rcases hn with hn | hn
+    · exact hn (by omega)
+    · omega
+  · simp only [hn, Bool.false_eq_true, if_false]
+    have hname : byteLen c.1.toList = 1 ∧ ((65 ≤ (c.1.toUTF8.toList.getD 0 0).toNat ∧ (c.1.toUTF8.toList.getD 0 0).toNat ≤ 90) ∨
+        (97 ≤ (c.1.toUTF8.toList.getD 0 0).toNat ∧ (c.1.toUTF8.toList.getD 0 0).toNat ≤ 122)) := by
+      simp only [Bool.or_eq_true, bne_iff_ne, ne_eq, Bool.not_eq_true', Bool.and_eq_true, decide_eq_true_eq, not_or,
+        Bool.not_eq_false, Decidable.not_not] at hn
+      obtain ⟨h1, h2⟩ := hn
+      refine ⟨by omega, ?_⟩
+      rcases h2 with h2 | h2
+      · left; omega
+      · right; omega
+    obtain ⟨name, vals⟩ := c
+    simp only [] at hname ⊢
+    by_cases he : name = "e"
+    · subst he
+      simp (config := { decide := true }) only [beq_self_eq_true, if_true, Bool.not_not, List.all_eq_true, validID_iff,
+        true_implies, false_implies, and_true, hname]
+      simp (config := { decide := true })
+    · have he' : (name == "e") = false := by simpa using he
+      simp only [he', Bool.false_eq_true, if_false]
+      by_cases hp : name = "p"
+      · subst hp
+        simp (config := { decide := true }) only [beq_self_eq_true, if_true, Bool.not_not, List.all_eq_true, validPubkey_iff,
+          hname]
+        simp (config := { decide := true })
+      · have hp' : (name == "p") = false := by simpa using hp
+        simp only [hp', Bool.false_eq_true, if_false]
+        by_cases ha : name = "a"
+        · subst ha
+          simp (config := { decide := true }) only [beq_self_eq_true, if_true, Bool.not_not, List.all_eq_true, validNaddr_iff,
+            hname]
+          simp (config := { decide := true })
+        · have ha' : (name == "a") = false := by simpa using ha
+          simp only [ha', Bool.false_eq_true, if_false, true_iff]
+          exact ⟨hname, fun h => absurd h he, fun h => absurd h hp, fun h => absurd h ha⟩
+
+/-- **C11, filters**: `ReqFilter.Valid` holds exactly for filters meeting the constraints. -/
+theorem validFilter_iff (f : Filter) : validFilter f = true ↔ FilterOk f := by
+  obtain ⟨ids, authors, kinds, tags, since, until_, limit⟩ := f
+  simp only [validFilter, FilterOk, Gen.filterIdsBad, Gen.filterAuthorsBad, Gen.filterKindsBad, Gen.filterSinceBad,
+    Gen.filterUntilBad, Gen.filterSinceUntilBad, Gen.filterLimitBad, Bool.and_eq_true]
+  cases ids <;> cases authors <;> cases kinds <;> cases tags <;> cases since <;> cases until_ <;> cases limit <;>
+    simp [List.all_eq_true, validID_iff, validPubkey_iff, validKind_iff, validTagCond_iff, and_assoc]
+
+/-- **C11, admission = the constraints.**  `ValidClientMsg` judges a parsed client message valid exactly when it
+    meets the NIP-01 constraints: no well-formed message is turned away, and every component behind the gate may
+    rely on them. -/
+theorem validClientMsg_iff (m : ClientMsg) : validClientMsg m = true ↔ MsgOk m := by
+  cases m with
+  | event e => exact validEvent_iff e
+  | auth e => exact validEvent_iff e
+  | close s => simp [validClientMsg, MsgOk]
+  | req s fs =>
+    simp only [validClientMsg, MsgOk, Gen.reqNoFilters, Bool.and_eq_true, Bool.not_eq_true', List.all_eq_true,
+      validFilter_iff]
+    constructor
+    · rintro ⟨h1, h2⟩
+      refine ⟨fun hn => ?_, h2⟩
+      subst hn; simp at h1
+    · rintro ⟨h1, h2⟩
+      refine ⟨?_, h2⟩
+      cases fs with
+      | nil => exact absurd rfl h1
+      | cons f fs => simp; omega
+  | count s fs =>
+    simp only [validClientMsg, MsgOk, Gen.countNoFilters, Bool.and_eq_true, Bool.not_eq_true', List.all_eq_true,
+      validFilter_iff]
+    constructor
+    · rintro ⟨h1, h2⟩
+      refine ⟨fun hn => ?_, h2⟩
+      subst hn; simp at h1
+    · rintro ⟨h1, h2⟩
+      refine ⟨?_, h2⟩
+      cases fs with
+      | nil => exact absurd rfl h1
+      | cons f fs => simp; omega
+
 end Moc.C11
